@@ -56,13 +56,17 @@ def near_zero(v):
 def calculate_normal_3d(polygon):
     """Returns polygon normal vector for 3d polygon"""
     normal = np.array([0.0] * len(polygon[0]))
+    scale = 0.0
     for p1, p2 in looped_pairs(polygon):
         minus = p2 - p1
         plus = p2 + p1
         normal[0] += minus[1] * plus[2]
         normal[1] += minus[2] * plus[0]
         normal[2] += minus[0] * plus[1]
-    if near_zero(normal):
+        scale += np.dot(minus, minus)
+    # The normal is twice the area vector: compare it with the squared edge
+    # lengths so that small (but perfectly valid) polygons are not rejected.
+    if scale == 0 or near_zero(normal / scale):
         raise ValueError("No normal found")
     else:
         return normal
